@@ -1,5 +1,5 @@
 """C02 Serialize-then-parse reproduces the packet."""
-import os
+import os, json
 from common import *
 import decl, gen, pktcases, pktprops
 
@@ -92,6 +92,10 @@ def run(tier, seed, rng):
     for G in groups:
         for pc in G.table.values():
             pc['sbl'] = None
+        # assert_consistency() on the same constructed values
+        for op in list(G.ops):
+            if op.get('op') == 'derive':
+                G.add_extra(op['_c'], dict(op='consistency', value=op['value'], _src=op))
     # finding D8: a regex delimiter that is not kept in the value (the property's wording covers it through "delimiter-free bodies")
     d8 = pktcases.Group({0: dict(end=None, align=None, sbl=None, gp=True, gu=True, vec=True, ann=True,
                                  fields=[{'move': None, 'body': ('elem', ('leaf', ('dregex', [('plus', 88)], False, b'')))},
@@ -117,6 +121,8 @@ def run(tier, seed, rng):
     failures = []
     dist = dict(values=0, packed=0, reparsed_equal=0, not_serializable=0, reference_encoding_checked=0, with_positioning=0, census=0, in_sequential_theorem=0, in_extended_theorem=0)
     last_pack = {}
+    consistency = {}
+    reparse_ok = {}
     for r in records:
         if r['kind'] == 'pack':
             dist['values'] += 1
@@ -143,6 +149,10 @@ def run(tier, seed, rng):
                                          observed=out.hex(), required=want.hex()))
             else:
                 dist['with_positioning'] += 1
+        elif r['kind'] == 'extra:consistency':
+            o = r['outcome']
+            dist['assert_consistency'] = dist.get('assert_consistency', 0) + 1
+            consistency[(r['group'], json.dumps(r['op'].get('value'), sort_keys=True))] = o
         elif r['kind'] == 'roundtrip' and r.get('variant') == 'base':
             o = r['outcome']
             v = r['source_value']
@@ -162,6 +172,13 @@ def run(tier, seed, rng):
                                      observed=dict(parsed=o['ok'], end=o['end'], length=len(r['raw']))))
             else:
                 dist['reparsed_equal'] += 1
+                reparse_ok[(r['group'], json.dumps(pktcases.jvalue(v), sort_keys=True))] = True
+    # assert_consistency() must return True (and not raise) for every value whose serialization parsed back equal
+    for key, ok in reparse_ok.items():
+        o = consistency.get(key)
+        if o is not None and not (isinstance(o, dict) and o.get('ok', {}).get('dont_raise') is True and o['ok'].get('plain') is True):
+            failures.append(dict(kind='oracle', sig='assert-consistency', what=f"unpack(p.pack()) reproduces the packet but assert_consistency() says {o}",
+                                 classes=pktprops.class_source(groups, key[0]), value=key[1]))
     # ---- census: on how many of the generated values do the hypotheses of the theorems hold (evaluated in Coq on the model's
     # rendering of the same table and value)?  A value inside the hypotheses that fails the oracle would contradict
     # theorem + correspondence; the census also measures how much of the generated space the theorems speak about.
